@@ -28,6 +28,13 @@ SRC="${VERIF_SIMSRC:-$V/sim}" # a frozen copy of the simulator sources (seedswee
     "$B/instr" -recv Table,tableRevalidation -hook VerifYieldTable "$REPO/portalwire/$f.go" "$ID/$f.go.new" 2>/dev/null || { echo "build: instrumenting $f.go failed" >&2; exit 2; }
     if ! cmp -s "$ID/$f.go.new" "$ID/$f.go"; then mv "$ID/$f.go.new" "$ID/$f.go"; else rm -f "$ID/$f.go.new"; fi
   done
+  # ... and for the offer path of the protocol (the handlers and workers that share the in-flight marks, the
+  # transfer slots and the version cache): selected methods of *PortalProtocol
+  PFUNCS=handleOffer,filterContentKeys,filterContentKeysV0,filterContentKeysV1,cacheTransferringKeys,deleteTransferringContentKeys,transferringCount,handleOfferedContents,processOffer,offer,offerWorker,getOrStoreHighestVersion,handleFindContent
+  for f in portal_protocol portal_protocol_v1; do
+    "$B/instr" -recv PortalProtocol -funcs "$PFUNCS" -hook VerifYieldProto "$REPO/portalwire/$f.go" "$ID/$f.go.new" 2>/dev/null || { echo "build: instrumenting $f.go failed" >&2; exit 2; }
+    if ! cmp -s "$ID/$f.go.new" "$ID/$f.go"; then mv "$ID/$f.go.new" "$ID/$f.go"; else rm -f "$ID/$f.go.new"; fi
+  done
   cat > "$ID/zz_verif_yield.go.new" <<'GO'
 package portalwire
 
@@ -41,6 +48,15 @@ func VerifYieldTable(site string) {
 		h(site)
 	}
 }
+
+// VerifProtoYieldHook is called at every yield point of the instrumented offer path.
+var VerifProtoYieldHook func(site string)
+
+func VerifYieldProto(site string) {
+	if h := VerifProtoYieldHook; h != nil {
+		h(site)
+	}
+}
 GO
   if ! cmp -s "$ID/zz_verif_yield.go.new" "$ID/zz_verif_yield.go"; then mv "$ID/zz_verif_yield.go.new" "$ID/zz_verif_yield.go"; else rm -f "$ID/zz_verif_yield.go.new"; fi
   python3 - "$B" "$REPO" "$ID" <<'PY'
@@ -50,6 +66,8 @@ o=json.load(open(B+"/rtoverlay/overlay.json"))
 o["Replace"][REPO+"/storage/pebble/storage.go"]=ID+"/storage.go"
 o["Replace"][REPO+"/portalwire/table.go"]=ID+"/table.go"
 o["Replace"][REPO+"/portalwire/table_reval.go"]=ID+"/table_reval.go"
+o["Replace"][REPO+"/portalwire/portal_protocol.go"]=ID+"/portal_protocol.go"
+o["Replace"][REPO+"/portalwire/portal_protocol_v1.go"]=ID+"/portal_protocol_v1.go"
 o["Replace"][REPO+"/portalwire/zz_verif_yield.go"]=ID+"/zz_verif_yield.go"
 new=json.dumps(o,indent=1,sort_keys=True)
 try: old=open(ID+"/overlay.json").read()
